@@ -393,32 +393,36 @@ def r06_5(cx):
     for k in (1, 2, 3, 4):
         b = cx.body('<packed::teddy::builder::x86_64::SlimAVX2<%d> as packed::teddy::builder::SearcherT>::find' % k)
         n += 1
-        c128 = [bi for bi, t in b.calls(r'generic::Slim::find$') if tstr(peel(b.call_term(bi, t)[2][0])) == 'self.slim128']
-        c256 = [bi for bi, t in b.calls(r'generic::Slim::find$') if tstr(peel(b.call_term(bi, t)[2][0])) == 'self.slim256']
-        g = []
-        for blk, sc in b.switches():
-            if sc[0] != 'bool':
+        from acverif.sym import summarize, canon, cstr, row_consistent, by_cstr
+        from acverif.rl import param_at
+        START, END = cstr(param_at(b, 2)), cstr(param_at(b, 3))
+        rows = [r for r in summarize(cx.facts, b) if r.end == 'return']
+        why = None
+        for ln in range(14, 40):
+            at = by_cstr({'packed::ext::Pointer::distance(%s, %s)' % (END, START): ln, 'packed::teddy::generic::Slim::minimum_len(self.slim256)': 32 + k - 1})
+            sel = [r for r in rows if row_consistent(r, at)]
+            if len(sel) != 1:
+                why = why or '%d paths for a haystack of %d bytes (the choice does not depend on end - start and slim256.minimum_len() alone)' % (len(sel), ln)
                 continue
-            def fn(y):
-                if is_var(y, 'len'):
-                    return atom('LEN')
-                if is_call(y, r'generic::Slim::minimum_len$') and tstr(peel(y[2][0])) == 'self.slim256':
-                    return atom('MIN256')
-                return None
-            cn = cmp_norm(rewrite(sc[1], fn))
-            if cn == cmp_norm(('op', 'Lt', atom('LEN'), atom('MIN256'))):
-                g.append((blk, [(blk, t) for t in sc[2]], [(blk, t) for t in sc[3]]))
-            elif cn == cmp_norm(('op', 'Ge', atom('LEN'), atom('MIN256'))):
-                g.append((blk, [(blk, t) for t in sc[3]], [(blk, t) for t in sc[2]]))
-        ll = b.locals_named('len')
-        d = b.def_term(ll[0]) if ll else None
-        oklen = d is not None and is_call(d, r'Pointer::distance$') and is_var(peel(d[2][0]), 'end') and is_var(peel(d[2][1]), 'start')
-        ok = len(c128) == 1 and len(c256) == 1 and bool(g) and oklen and not reachable_without(b, c256, [e for x in g for e in x[2]]) and not reachable_without(b, c128, [e for x in g for e in x[1]])
-        cx.report('R15.2', b, 'avx2-dispatch', ok, 'the 256-bit searcher runs only if end - start >= slim256.minimum_len(); otherwise the 128-bit one' if ok else 'SlimAVX2<%d>::find does not select by len < slim256.minimum_len()' % k)
+            ret = canon(sel[0].ret) if sel[0].ret is not None else None
+            want = 'self.slim256' if ln >= 32 + k - 1 else 'self.slim128'
+            if not (ret is not None and is_call(ret, r'generic::Slim::find$') and [cstr(x) for x in ret[2]] == [want, START, END]):
+                why = why or 'for end - start = %d and slim256.minimum_len() = %d the search is answered by %s (expected %s.find(start, end))' % (ln, 32 + k - 1, tstr(ret, 120) if ret else None, want)
+        cx.report('R15.2', b, 'avx2-dispatch', why is None, 'the 256-bit searcher runs only if end - start >= slim256.minimum_len(); otherwise the 128-bit one (tabulated)' if why is None else 'SlimAVX2<%d>::find: %s' % (k, why))
         nu = cx.body('packed::teddy::builder::x86_64::SlimAVX2::<%d>::new_unchecked' % k)
-        ml = nu.locals_named('minimum_len')
-        d = nu.def_term(ml[0]) if ml else None
-        okm = d is not None and is_call(d, r'generic::Slim::minimum_len$') and is_var(peel(d[2][0]), 'slim128')
+        nrows = [r for r in summarize(cx.facts, nu) if r.end == 'return']
+        okm = bool(nrows)
+        for r in nrows:
+            rt = r.ret
+            if not (rt is not None and rt[0] == 'agg' and isinstance(rt[3], dict) and 'minimum_len' in rt[3]):
+                okm = False
+                continue
+            ml = canon(rt[3]['minimum_len'])
+            # the value whose minimum_len is published must be the 128-bit searcher stored in the SlimAVX2 value
+            aggs = [canon(c[2][0]) for c in r.calls(r'alloc::sync::Arc::<.*>::new$|alloc::sync::Arc::new$')]
+            s128 = [cstr(x[3]['slim128']) for x in aggs if x[0] == 'agg' and isinstance(x[3], dict) and 'slim128' in x[3]]
+            if not (is_call(ml, r'generic::Slim::minimum_len$') and len(s128) == 1 and cstr(ml[2][0]) == s128[0]):
+                okm = False
         cx.report('R15.2', nu, 'minimum_len', okm, 'Searcher.minimum_len is the 128-bit (smaller) minimum' if okm else 'SlimAVX2 Searcher.minimum_len is not slim128.minimum_len()')
     # every SearcherT::find impl carries a target_feature and every checked constructor probes it
     feats = {'SlimSSSE3': 'ssse3', 'SlimAVX2': 'avx2', 'FatAVX2': 'avx2'}
